@@ -23,6 +23,7 @@ thread_local! {
     static HINTED: Cell<u64> = const { Cell::new(0) };
     static ROTATED: Cell<u64> = const { Cell::new(0) };
     static INNER_STATE: Cell<u64> = const { Cell::new(0) };
+    static FED_INSIDE: Cell<u64> = const { Cell::new(0) };
 }
 fn ev(n: u64) {
     EVALS.with(|c| c.set(c.get() + n));
@@ -401,7 +402,16 @@ fn check_graph_node(cx: &mut Cx, in_bufs: &[usize], n_out: usize, calls: usize, 
     // inner graph: one Hold node per input (2 buffers each) -> Sum (2 buffers) -> Pass (n_out buffers)
     let build_inner = || {
         let mut g: Graph<NodeData<BoxedNode>, ()> = Graph::new();
-        let holds: Vec<NodeIndex> = in_bufs.iter().map(|_| g.add_node(NodeData::new(BoxedNode::new(Hold), vec![Buffer::SILENT; 2]))).collect();
+        // On odd seeds the FIRST designated input node is a Pass with two buffers that is also fed
+        // from inside the inner graph by a one-buffer signal node: processing it overwrites only
+        // buffer 0, buffer 1 keeps what the outer input put there.
+        let fed_inside = seed % 2 == 1;
+        let holds: Vec<NodeIndex> = in_bufs.iter().enumerate().map(|(k, _)| if fed_inside && k == 0 { g.add_node(NodeData::new(BoxedNode::new(Pass), vec![Buffer::SILENT; 2])) } else { g.add_node(NodeData::new(BoxedNode::new(Hold), vec![Buffer::SILENT; 2])) }).collect();
+        if fed_inside {
+            let feeder = g.add_node(NodeData::new(BoxedNode::new(Box::new(Counter::<1> { k: 1000, len: None }) as Box<dyn reg_signal::Signal<Frame = [f32; 1]>>), vec![Buffer::SILENT; 1]));
+            g.add_edge(feeder, holds[0], ());
+            FED_INSIDE.with(|c| c.set(c.get() + 1));
+        }
         let sum = g.add_node(NodeData::new(BoxedNode::new(Sum), vec![Buffer::SILENT; 2]));
         let out = g.add_node(NodeData::new(BoxedNode::new(Pass), vec![Buffer::SILENT; 2]));
         // a stateful inner source (a counting signal node): the inner graph has a history of its
@@ -665,6 +675,10 @@ fn main() {
             rep.nontrivial(vmon::hash_combine(vmon::hash_str(what), vmon::hash_str(&format!("{:?}{}{:?}", ins, n_out, extra))));
         }
         rep.eval(EVALS.with(|c| c.replace(0)));
+        let fi = FED_INSIDE.with(|c| c.replace(0));
+        if fi > 0 {
+            rep.hit_n("nested_graph_input_node_also_fed_from_inside", fi);
+        }
         let is = INNER_STATE.with(|c| c.replace(0));
         if is > 0 {
             rep.hit_n("nested_graph_inner_state_compared", is);
@@ -684,6 +698,7 @@ fn main() {
     if !lean {
         rep.oblige("delay_ring_handed_over_rotated", 1);
         rep.oblige("nested_graph_inner_state_compared", 1);
+        rep.oblige("nested_graph_input_node_also_fed_from_inside", 1);
         rep.oblige("signal_node_driven_past_exhaustion_hint", 1);
     }
     if !lean {
